@@ -19,6 +19,9 @@ for pf in dirs:
     r = subprocess.run(["git", "-C", "/repo", "apply", pf], capture_output=True, text=True)
     if r.returncode != 0:
         print(name, "PATCH DOES NOT APPLY", r.stderr[:300]); out[name] = "noapply"; continue
+    # the evidence file of the property must keep describing the unchanged tree: save it and put it back
+    evp = os.path.join(V, "evidence", pid + ".json")
+    evsave = open(evp).read() if os.path.exists(evp) else None
     try:
         tier = os.environ.get("SEED_TIER", "quick")
         c = subprocess.run([os.path.join(V, "check"), pid, "--tier", tier], capture_output=True, text=True, cwd=V)
@@ -27,6 +30,8 @@ for pf in dirs:
         print(name, pid, "rc=%d" % c.returncode, viol[:2], c.stderr.strip().split("\n")[-1][:200])
     finally:
         subprocess.run(["git", "-C", "/repo", "checkout", "--", "."])
+        if evsave is not None:
+            open(evp, "w").write(evsave)
 # merge into the results of earlier runs (one entry per seeded change)
 rp = os.path.join(V, "seeded", "last_results.json")
 try:
